@@ -670,6 +670,9 @@ impl Printable for Suffix {
 			}
 			Self::SuffixApply(a) => {
 				p!(out, { a.args_desc() });
+				if a.tailstrict_kw_token().is_some() {
+					p!(out, str(" tailstrict"));
+				}
 			}
 		}
 	}
